@@ -4,7 +4,8 @@ import net, gens
 from runner import Script, Cfg
 
 ID = "C04"
-THEOREMS = ["C04_wellformed"]
+THEOREMS = ["C04_wellformed_unconditional", "C04_emitted_bytes_ok", "C04_emitted_short", "C04_wellformed",
+            "C01.C01_current_env_small", "Env.the_env_ok"]
 MONITORS = ["C04"]
 RULE = ("replies of every protocol over both IP versions with payload sizes 0..1472 including every odd length near word "
         "boundaries; UDP/IPv6 requests whose source port is solved (against the model's checksum) so that the reply's "
